@@ -80,3 +80,16 @@ Proof.
   - destruct (evaluate_init_tie s2 sc HX) as (s3 & E3 & A3 & _). exists s3. split; [reflexivity|]. split; [exact E3|exact A3].
   - destruct (evaluate_tie s2 sc HX) as (s3 & E3 & A3 & _). exists s3. split; [reflexivity|]. split; [exact E3|]. rewrite A3, HP2. reflexivity.
 Qed.
+
+(* the no-repeat clause for the generated evaluate: with replacement=False the scored position is no longer a candidate afterwards, and
+   candidates are only ever removed *)
+Theorem source_evaluate_removes self sc s' : sg_X_sample self <> [] -> sg_replacement self = false ->
+  g_SMBO_evaluate self sc = Ok s' ->
+  ~ In (sg_pos_new self) (sg_all_pos_comb s') /\ (forall q, In q (sg_all_pos_comb s') -> In q (sg_all_pos_comb self)) /\ sg_replacement s' = false.
+Proof.
+  intros HX HR E. destruct (evaluate_tie self sc HX) as (s1 & E1 & A & _). rewrite E in E1. inversion E1; subst s1. clear E1.
+  assert (C : sg_all_pos_comb s' = remove_position (sg_all_pos_comb self) (sg_pos_new self) /\ sg_replacement s' = false).
+  { unfold sabs, smbo_evaluate, track_y in A. cbn [sm_replacement] in A. rewrite HR in A.
+    destruct (is_finite sc); cbn in A; injection A as A1 A2 A3 A4; (split; [exact A3|exact A4]). }
+  destruct C as [C1 C2]. rewrite C1. split; [apply remove_position_not_in|]. split; [intros q Hq; eapply remove_position_subset; exact Hq|exact C2].
+Qed.
